@@ -188,6 +188,12 @@ def handler : Handler := fun op j =>
     let xsF : List (Nat → Float) := xs.map fun l => let a := l.toArray; fun i => a.getD i 0
     let y := applyDescG (fun i => rowsA.getD i []) xsF
     some (ok (jFs ((List.range rows.length).map y)))
+  | "combinekind" => do
+    -- the model's dispatch rule of the operator calculus (Model/Jaxpr.lean: combineKind)
+    let k? : String → Option OpKind := fun s => if s = "linear" then some .linear else if s = "nonlinear" then some .nonlinear else none
+    let a ← (fStr? j "a").bind k?
+    let b ← (fStr? j "b").bind k?
+    some (ok (jS (match combineKind a b with | .linear => "linear" | .nonlinear => "nonlinear")))
   | "runfam" => do
     -- the model's `run` under the family interpretation `famDen` (proved sound at ℂ for every table) at complex floats
     let p ← progOfJson j
